@@ -10,11 +10,16 @@ parked inside the protocol behind a pipelined request (carrier h1pipe: two reque
 the first application streams / waits for its disconnect): there a failed write, a reset or a
 server-side close is the only thing that can tell the application, whose "stream" script keeps
 writing chunk after chunk (write failure at each write) and only stops on http.disconnect.
+
+The access logger is a dimension too ("ylog" scenarios: a logger_class whose access() yields to the
+event loop after writing its record, like the statsd logger): the closure is then also placed INSIDE
+the access-log call of the completing response / the WebSocket handshake.
 """
 from __future__ import annotations
 
 from typing import Any, List
 
+from mc.core import RecordingLogger
 from mc.clients import (OP_TEXT, h1_request, h2_request_headers, make_client, ws_close_frame, ws_frame,
                         ws_h1_handshake, ws_h2_headers)
 from mc.explore import V
@@ -26,7 +31,8 @@ LEVEL = "model_checking"
 TECHNIQUE = ("stateless deviation-bounded exploration (CHESS-style) of the real TCPServer/H11/H2/stream code "
              "under a virtual-time event loop and an in-memory transport; per-execution monitor")
 RULE = ("scenario = engine x carrier(h1,h1 keep-alive pair,h1 pipelined pair (reader parked),h2 two streams,ws/h1,ws/h2) x "
-        "app script x closure kind; every placement of "
+        "app script x closure kind x access logger (plain | access() yields: h1,h2,ws/h1,ws/h2 x 2 scripts x "
+        "eof/reset/terminate); every placement of "
         "the closure event, gate releases and timer ticks within bounds (M mid-flight injections, S source "
         "preemptions); non-trivial = an app instance ran and at least one non-default choice was taken; distinct "
         "by digest of (per-instance message sequences, send outcomes, parsed client events, close instants, logs)")
@@ -35,9 +41,14 @@ ASSUMPTIONS = [
     "instances cancelled by the harness at teardown are exempt; instances still parked on an unreleased gate are "
     "judged on what was queued for them",
     "only messages the reference ASGI automaton allows (given what the app itself sent) must be accepted silently",
+    "the yielding access logger writes its record when access() is called and yields afterwards (as the statsd logger "
+    "does): two records of one request are ordered by their access() calls; a second record FOLLOWING the record of the "
+    "complete response is keyed ...:after-complete, the premature closure record followed by the accurate one keeps "
+    "the key of the registered finding",
 ]
 BOUNDS_DOC = {"quick": "M<=1 mid-flight injections, S<=2 preemptions, R=0 (trio keep-alive pair: M<=1,S<=1,R<=1); "
-                       "6 carriers (h1pipe: 3 scripts x 4 closure kinds) x 7 HTTP / 5 WebSocket scripts x 6 closure kinds x 2 engines",
+                       "6 carriers (h1pipe: 3 scripts x 4 closure kinds) x 7 HTTP / 5 WebSocket scripts x 6 closure kinds x 2 engines; "
+                       "+ yielding access logger: 4 carriers x 2 scripts x 3 closure kinds x 2 engines (same bounds)",
               "thorough": "M<=2, S<=3, trio R<=1"}
 BUDGET = {"quick": 300, "thorough": 1800}
 
@@ -85,6 +96,32 @@ PIPE_APPS = ("gated", "send_after", "stream")
 # check stays quiet; remove the entries once the finding is registered.
 PENDING_FINDING: set = set()  # registered as KF-C03-reset-behind-parked-reader (known_findings.json)
 
+# The access logger is configuration (config.logger_class / statsd_host): hypercorn's plain Logger.access() never
+# gives up control, the statsd logger awaits its UDP sends after writing the record (on trio every call is a
+# checkpoint).  "ylog" scenarios record through a logger whose access() writes the record at once and THEN yields to
+# the event loop, so that the closure (and every other source) can be placed inside the access-log call itself.
+# The record is taken before the yield on purpose: the order of two records of one request is then the order of the
+# two access() calls, which is what tells "logged again after the complete record" from the known premature record.
+YLOG_CARRIERS = ("h1", "h2", "ws/h1", "ws/h2")
+YLOG_APPS = {"http": ("gated", "early"), "ws": ("session", "reject")}
+YLOG_FAULTS = ("eof", "reset", "terminate")
+
+
+class YieldingLoggerAsyncio(RecordingLogger):
+    async def access(self, request: dict, response: Any, request_time: float) -> None:
+        import asyncio
+
+        await super().access(request, response, request_time)
+        await asyncio.sleep(0)
+
+
+class YieldingLoggerTrio(RecordingLogger):
+    async def access(self, request: dict, response: Any, request_time: float) -> None:
+        import trio
+
+        await super().access(request, response, request_time)
+        await trio.lowlevel.checkpoint()
+
 
 def scenarios(tier: str) -> List[Any]:
     out = []
@@ -104,6 +141,10 @@ def scenarios(tier: str) -> List[Any]:
                     if (engine, carrier, app, fault) in PENDING_FINDING:
                         continue
                     out.append((engine, carrier, app, fault))
+        for carrier in YLOG_CARRIERS:
+            for app in YLOG_APPS["ws" if carrier.startswith("ws") else "http"]:
+                for fault in YLOG_FAULTS:
+                    out.append((engine, carrier, app, fault, "ylog"))
     return out
 
 
@@ -116,7 +157,7 @@ def bounds(tier: str, params: Any) -> dict:
 
 
 def build(params: Any) -> tuple:
-    engine, carrier, app, fault = params
+    engine, carrier, app, fault = params[:4]
     sources = []
     conn = {"carrier": carrier}
     if carrier == "h1":
@@ -177,12 +218,14 @@ def build(params: Any) -> tuple:
         "level": "conn", "conns": {0: conn}, "client_factory": make_client, "apps": apps,
         "config": {"keep_alive_timeout": 5}, "sources": sources, "trio_rev": True,
     }
+    if params[4:] == ("ylog",):
+        sc["logger_base"] = YieldingLoggerTrio if engine == "trio" else YieldingLoggerAsyncio
     return engine, sc
 
 
 def oracle(w: Any, params: Any) -> List[dict]:
     out: List[dict] = []
-    engine, carrier, app, fault = params
+    engine, carrier, app, fault = params[:4]
     rec = w.conns[0]
     for inst in w.instances:
         if inst.outcome == "cancelled":
@@ -212,9 +255,13 @@ def oracle(w: Any, params: Any) -> List[dict]:
             if ok:
                 model.advance(msg)
         # one access record per request
-        n = sum(1 for a in w.access if a[5] is inst.scope)
+        mine = [a for a in w.access if a[5] is inst.scope]
+        n = len(mine)
         if n > 1:
-            out.append(V("access-log-more-than-once", f"{wtag}:{n}", [(a[0], a[4]) for a in w.access if a[5] is inst.scope]))
+            # which record came first is part of the key: a request logged AGAIN after the record of its complete
+            # response is another situation than a premature closure record followed by the accurate one
+            order = "" if mine[0][4] is None else ":after-complete"
+            out.append(V("access-log-more-than-once", f"{wtag}:{n}{order}", [(a[0], a[4]) for a in mine]))
         if n == 0 and disc:
             out.append(V("access-log-missing", f"{wtag}", inst.outcome))
     seen = {}
